@@ -172,6 +172,26 @@ pub fn check_frame(addr: u16, ty: u8, data: &[u8], rep: &mut Report) {
                     if f.clone().into_data().get().as_ref() != data {
                         bad.push(("decode_differs", sig.clone(), format!("into_data of the decoded frame gives {:?} ({})", f.clone().into_data(), label)));
                     }
+                    // a DECODED frame of a few bytes less / more / none is refilled from this one (clone_from): it is this frame now
+                    if data.len() <= 40 || (u32::from(addr) ^ u32::from(ty)) % 16 == 7 {
+                        for other_len in [0usize, data.len().saturating_sub(1), data.len().saturating_sub(2), data.len().saturating_sub(3), data.len() / 2, (data.len() + 1).min(255), (data.len() + 2).min(255), (data.len() + 5).min(255)] {
+                            let other: Vec<u8> = (0..other_len).map(|i| data.get(i).copied().unwrap_or(0xC3) ^ 0x11).collect();
+                            for src in [&f, &owned] {
+                                let mut t = Frame::from_bytes(&refs::enc_crlf(addr ^ 0x0100, ty ^ 1, &other)).expect("the reference encoder's line");
+                                t.clone_from(src);
+                                if t != owned || t.to_bytes() != want || t.data().as_ref() != data {
+                                    bad.push(("refilled_frame_differs", show_bytes(&want), format!("{} (a decoded frame of {} data bytes refilled with clone_from, {})", show_bytes(&t.to_bytes()), other_len, label)));
+                                }
+                                // .. and the other way round: this decoded frame becomes the other one
+                                let o = Frame::new(Address(addr ^ 0x0100), MsgType(ty ^ 1), Data::try_new(other.clone()).expect("<=255"));
+                                let mut back = f.clone();
+                                back.clone_from(&o);
+                                if back != o || back.to_bytes() != refs::enc(addr ^ 0x0100, ty ^ 1, &other) {
+                                    bad.push(("refilled_frame_differs", show_bytes(&refs::enc(addr ^ 0x0100, ty ^ 1, &other)), format!("{} (this decoded frame refilled from one of {} data bytes, {})", show_bytes(&back.to_bytes()), other_len, label)));
+                                }
+                            }
+                        }
+                    }
                     // equal frames hash alike, wherever they came from (a set of frames must not hold one frame twice)
                     use std::hash::{Hash, Hasher};
                     let h = |x: &Frame<'_>| {
